@@ -28,6 +28,7 @@ PROPERTIES
   Step_Outcome
   Step_C07_NoTrace
   Step_C08_OneLog
+  Step_C16_Independent
   Step_C25_Recorded
   Step_C15_Reverted
   Step_C17_Metadata
